@@ -22,6 +22,9 @@ def run(ctx) -> None:
     jsonrules.rule_J1(ctx)
     jsonrules.rule_J2(ctx)
     jsonrules.rule_J6(ctx)
+    from .c15 import rule_Q7
+    ctx.rules_run.append("Q7")
+    rule_Q7(ctx)                # RFC 3339 text: four-digit year over the whole valid range
     from .c19 import rule_I3
     ctx.rules_run.append("I3")
     rule_I3(ctx)            # emitted keys are found again by from_dict (key table)
